@@ -73,4 +73,4 @@ let hol inp impl =
    exactly its own session, so the only model observable is "ok" *)
 let isostress _inp impl = ("ok", if impl = "ok" then "1" else "0")
 
-let () = Registry.register "iso" iso; Registry.register "hol" hol; Registry.register "isostress" isostress; Registry.register "hollimit" isostress
+let () = Registry.register "iso" iso; Registry.register "hol" hol; Registry.register "isostress" isostress; Registry.register "hollimit" isostress; Registry.register "holwrite" isostress
